@@ -89,6 +89,36 @@ def opsNewton (op : String) (ins outs : List String) : Option String :=
     if findZeroCert eqs s then pure "ok feasible-certified"
     else if findZeroCertX eqs s then pure "ok feasible-certified exact-arithmetic"
     else pure "ok feasible-uncertified"
+  | "certify", [obj, dags, specs, _, _, zs, _], [res, sol, loup] => do
+    -- LoupFinderCertify: a returned box must contain a point satisfying the equalities exactly and every inequality,
+    -- with goal ≤ the returned value
+    if res != "FOUND" then pure "ok certify-no-claim" else
+    let obj ← parseProgram obj
+    let cs ← (dags.splitOn "|").mapM parseProgram
+    let ss := specs.splitOn "|"
+    if cs.length != ss.length then none else
+    let s ← parseBox sol
+    let l ← parseExt loup
+    let zs ← parseZeros zs
+    let whole : Box := s.map fun _ => Itv.mk .ninf .pinf        -- (the box may leave the declared domain: it must only meet it)
+    let P : Optim.Problem := ⟨obj, List.zip cs ss, whole, 0⟩
+    if Box.isEmpty s then pure "FAIL certified-box-is-empty" else
+    if Optim.witBoxRefuted P true l s then
+      let j := (List.range P.ctrs.length).find? fun j => match P.ctrs[j]? with
+        | some c => (match Optim.itvVal c.1 s with | some z => Optim.specRefuted 0 true c.2 z | none => false)
+        | none => false
+      pure (match j with
+            | some j => s!"FAIL certified-box-violates-constraint-{j}-at-every-point"
+            | none => "FAIL goal-on-the-certified-box-exceeds-the-returned-value")
+    else
+    let eqs := (P.ctrs.filter (·.2 == "eq")).map (·.1)
+    if !eqs.isEmpty && Verdict.noZero eqs 4 s then pure "FAIL certified-box-without-any-zero-of-the-equalities" else
+    if zs.any (fun z => Verdict.ratIn z s && Optim.feasQ P z) then pure "ok certify-known-feasible-point-inside" else
+    let ineqProved := P.ctrs.all fun c => c.2 == "eq" ||
+      (match Optim.itvVal c.1 s with | some z => Optim.specProved 0 c.2 z | none => false)
+    if ineqProved && eqs.length ≤ s.length && (eqs.isEmpty || findZeroCert eqs s) then pure "ok certify-certified"
+    else if ineqProved && eqs.length ≤ s.length && findZeroCertX eqs s then pure "ok certify-certified exact-arithmetic"
+    else pure "ok certify-uncertified"
   | _, _, _ => none
 
 end Ibex.Driver
